@@ -453,8 +453,16 @@ where
                 run_status,
                 delay_before_next_attempt,
             }) => {
+                let cancelled = self.cancel_state.is_some();
                 let instance = self.existing_test(test_instance.id());
                 instance.attempt_failed_will_retry(run_status.clone());
+                if cancelled {
+                    // The run is already being cancelled, and this unit may have consumed the
+                    // cancellation request while its attempt was still running. Let it know
+                    // again so that it doesn't sit out the delay before a retry that will
+                    // never be started.
+                    let _ = instance.req_tx.send(RunUnitRequest::OtherCancel);
+                }
                 self.callback_none_response(TestEventKind::TestAttemptFailedWillRetry {
                     test_instance,
                     failure_output,
